@@ -199,8 +199,21 @@ class Ctx:
         if more == 'unknown':
             self.weak = True
             self.flag('solver unknown at a realisation')
+        wide = False
+        if more == 'sat' and not excluded:
+            # first visit: count the feasible values here (at most `limit` solver calls) instead of finding out that there are
+            # too many by forking `limit` times - nested wide realisations would cost limit^depth re-executions
+            vals = [v]
+            while len(vals) < limit:
+                if self.check(*[t != x for x in vals]) != 'sat':
+                    break
+                w = self.solver.model().eval(t, model_completion=True)
+                if not z3.is_int_value(w):
+                    break
+                vals.append(w.as_long())
+            wide = len(vals) >= limit
         if more != 'unsat':
-            if len(excluded) + 1 >= limit:
+            if wide or len(excluded) + 1 >= limit:
                 self.flag('unbounded realisation of %s' % t)
             else:
                 self.forks += 1
